@@ -18,7 +18,7 @@ KINDS = ["defaults", "nested", "selfref", "generic", "ntfield", "plain", "list_i
 def harnesses(tier, seed):
     hs = []
     s = Schema("x", "int", "")
-    for k in (KINDS if tier != "quick" else ["defaults", "nested", "selfref", "generic", "ntfield", "nt"]):
+    for k in (KINDS if tier != "quick" else ["defaults", "nested", "selfref", "ntfield"]):
         kw = "kind=%r" % k
         hs.append(gen.custom_harness("C20", "c20", Schema("cube_" + k, "int", ""), "cube", kw, kw))
     pool = ("nested", "generic", "plain", "list_int", "nt", "defaults") if tier != "quick" else ("nested", "generic", "plain", "nt")
